@@ -590,6 +590,8 @@ def external(fr, dotted, args, kw, extra, n):
                 src = T.strip_nd(src[2][0])             # an element-type conversion of the per-row values does not change which value is repeated
             if src[0] == 'map':
                 return ('nd', ('concatmap', src[1], ('list', (src[2],) * args[1][1])))   # each element repeated k times in place
+        if name == 'union1d' and len(args) == 2 and not kw:
+            return T.call('unique', (T.call('append', (args[0], args[1])),))      # numpy: union1d(a, b) is unique(concatenate((a, b)))
         if name == 'where' and len(args) == 3 and not kw:
             # np.where(c, a, b): element i is a[i] where c[i] holds, else b[i]  (== [a[i] if c[i] else b[i] for i ...])
             n_ = next((T.length(x) for x in (args[2], args[1], args[0]) if not T.scalar_value(x)), None)
